@@ -65,7 +65,8 @@ class CorpusShufflingTool:
                             "its first annotator in alphabetical order will be used as reference.")
         self._reference_annotator: Annotator = reference_annotators[0]
         self._reference_continuum: Continuum = reference_continuum
-        self._categories: SortedSet = self._reference_continuum.categories
+        # own copy: the additional categories must not end up in the reference continuum
+        self._categories: SortedSet = SortedSet(self._reference_continuum.categories)
         if categories is not None:
             for category in categories:
                 self._categories.add(category)
@@ -73,7 +74,7 @@ class CorpusShufflingTool:
     def corpus_from_reference(self, new_annotators: Union[int, Iterable[Annotator]]):
         # TODO: add docstring
         continuum = Continuum()
-        continuum._categories = self._reference_continuum.categories
+        continuum._categories = SortedSet(self._categories)  # each generated corpus has its own set of categories
         continuum.bound_inf, continuum.bound_sup = self._reference_continuum.bounds
         if isinstance(new_annotators, int):
             new_annotators = [f"annotator_{i}" for i in range(new_annotators)]
